@@ -244,6 +244,10 @@ type Req struct {
 	WrapTTL time.Duration
 	WrapFmt string // "" | "jwt"
 	Remote  string
+	// Via: how the token travels, as the HTTP layer hands it over: "" (only
+	// ClientToken set), "header" (X-Vault-Token header + source), "bearer"
+	// (Authorization: Bearer header + source)
+	Via string
 }
 
 func (h *CoreH) nextReqID(tag string) string {
@@ -273,6 +277,16 @@ func (h *CoreH) Do(tag string, r Req) (*logical.Response, error) {
 	}
 	if r.WrapTTL > 0 {
 		req.WrapInfo = &logical.RequestWrapInfo{TTL: r.WrapTTL, Format: r.WrapFmt}
+	}
+	if r.Token != "" {
+		switch r.Via {
+		case "header":
+			req.Headers = map[string][]string{"X-Vault-Token": {r.Token}, "X-Request-Tag": {"plain-header-value"}}
+			req.ClientTokenSource = logical.ClientTokenFromVaultHeader
+		case "bearer":
+			req.Headers = map[string][]string{"Authorization": {"Basic cGxhaW46cGxhaW4=", "Bearer " + r.Token}, "X-Request-Tag": {"plain-header-value"}}
+			req.ClientTokenSource = logical.ClientTokenFromAuthzHeader
+		}
 	}
 	return h.Core.HandleRequest(ctx, req)
 }
